@@ -51,3 +51,11 @@ Proof. exists 5%nat, 1%nat, 1%nat, 1%nat, 1%nat, ex_S, ex_E, ex_Ci, ex_U, ex_lam
   cbn zeta in V1, V3.
   split; [exact H1|]. split; [exact H2|]. split; [exact H3|]. split; [exact H4|]. cbn zeta.
   rewrite V1, V3. split; [lra|]. split; lra. Qed.
+
+(* the variant that clips the reported times at zero (a "decorrelation time is non-negative" guard) reports 0 for this series, whose own trapezoidal sum
+   is -1/18: the sum of a truncated autocorrelation function of an oscillating series is negative, and the statement is about that sum *)
+Lemma ex_clip_refuted :
+  let o' := opa_fit OR false 5 1 1 1 ex_S ex_E ex_Ci ex_U ex_lam in
+  Rmax 0 (vget OR (o_tau o') 0) <> own_time OR 5 1 (o_P o') 0.
+Proof. cbn zeta. destruct ex_values as (_ & Ht & Ho & HP & _). rewrite Ht, HP, Ho.
+  unfold Rmax. destruct (Rle_dec 0 (-1 / 18)); lra. Qed.
